@@ -1,8 +1,98 @@
-(** C20 — property theorems (statements only; proofs in Proofs.v). *)
+(** C20 — property theorems (statements only; proofs in Proofs.v / ProofsSem.v).
+
+    All theorems are about the token-level model of Model.v.  [ms] ranges over ALL macro descriptions;
+    [well_formed] is a decidable predicate (a boolean function), checked by computation for the macros
+    translated from the source on every run and for the snapshot [current_macros].
+
+    What is NOT modelled — rustc's parsing of the [ty]/[expr] fragments, hygiene and name resolution,
+    type checking, borrow checking — is covered only by the compile-and-run battery (see [c20_rustc_partial]). *)
 From Coq Require Import List NArith Bool.
-From RlibV Require Import C20.Model C20.Corr C20.Current C20.Proofs.
+From RlibV Require Import C20.Model C20.Spec C20.Corr C20.Current C20.Proofs C20.ProofsSem C20.ProofsCorr.
 Import ListNotations.
 
-(** the snapshot of the current source is a well-formed macro set *)
+(** every shape with at least one argument — any number and interleaving of captures, including none,
+    with or without a return type — is munched to the end: no arm gets stuck *)
+Theorem c20_expand_total :
+  forall (ms : macros) (s : shape), well_formed ms = true -> sh_args s <> [] -> exists e, expand ms s = Some e.
+Proof. exact expand_total. Qed.
+
+(** the generated item uses the three lists positionally in the same order in the fn signature, in the
+    inner macro's call and in the closure's call; every capture exactly once, with the right reference kind
+    (see [consistent] in Spec.v) *)
+Theorem c20_positional_consistency :
+  forall (ms : macros) (s : shape), well_formed ms = true -> sh_args s <> [] ->
+  exists e, expand ms s = Some e /\ consistent s e.
+Proof. exact expand_consistent. Qed.
+
+(** [f!(e1, .., ek)] and [f!(e1, .., ek,)] reduce to the same call of the inner fn *)
+Theorem c20_call_syntaxes_agree :
+  forall (ms : macros) (s : shape) (e : expansion) (X : Type) (es : list (X + N)),
+  well_formed ms = true -> sh_args s <> [] -> expand ms s = Some e ->
+  call_plain e es = call_trailing e es.
+Proof. exact call_syntaxes_agree_wf. Qed.
+
+(** the closure built by the macro IS the hand-written recursive function: same result, same final
+    state of the captured variables, for every body, every recursion depth, every call syntax *)
+Theorem c20_semantics :
+  forall (ms : macros) (s : shape) (e : expansion),
+  well_formed ms = true -> sh_args s <> [] -> expand ms s = Some e -> NoDup (all_names s) ->
+  forall (V : Type) (body : selfT V -> list V -> list N -> list N -> store V -> option (V * store V)),
+  body_ext V body ->
+  forall (n : nat) (syn : bool) (args : list V) (st : store V),
+  closure V body s e n args st = hand V body s n syn args st.
+Proof. exact semantics_wf. Qed.
+
+(** the snapshot of the current source is a well-formed macro set ... *)
 Theorem c20_current_well_formed : well_formed current_macros = true.
 Proof. exact current_well_formed. Qed.
+
+(** ... it builds its capture lists in reverse order of appearance (front splicing) ... *)
+Theorem c20_current_order :
+  forall s : shape, sh_args s <> [] ->
+  expand current_macros s
+  = Some (emit (m_final current_macros)
+               (mkAccs (rev (caps_of Shared s)) (rev (caps_of Mutable s)) (sh_args s)) (ret_ty (sh_ret s))).
+Proof. exact current_order. Qed.
+
+(** ... hence everything above holds for it *)
+Theorem c20_current_correct :
+  forall s : shape, sh_args s <> [] -> NoDup (all_names s) ->
+  exists e, expand current_macros s = Some e /\ consistent s e
+            /\ (forall (X : Type) (es : list (X + N)), call_plain e es = call_trailing e es)
+            /\ forall (V : Type) (body : selfT V -> list V -> list N -> list N -> store V -> option (V * store V)),
+               body_ext V body ->
+               forall (n : nat) (syn : bool) (args : list V) (st : store V),
+               closure V body s e n args st = hand V body s n syn args st.
+Proof. exact (correct_of_wf current_macros current_well_formed). Qed.
+
+(** PARTIAL with respect to the property text: "compiles" is here "the munchers accept the invocation and
+    the generated item passes the model's positional kind check"; "same results and side effects" is equality
+    in the open-recursion semantics of Model.v.  Missing: rustc's fragment parsing ([ty], [expr]), hygiene
+    (that [_lambda_name_], [$name] and the captured names resolve as the model assumes), type checking and
+    borrow checking of the generated item.  Those are exercised only by the compile-and-run battery. *)
+Theorem c20_rustc_partial :
+  forall (ms : macros) (s : shape), well_formed ms = true -> sh_args s <> [] -> NoDup (all_names s) ->
+  exists e, expand ms s = Some e
+            /\ forall (V : Type) (body : selfT V -> list V -> list N -> list N -> store V -> option (V * store V)),
+               body_ext V body ->
+               forall (n : nat) (syn : bool) (args : list V) (st : store V),
+               closure V body s e n args st = hand V body s n syn args st.
+Proof. exact rustc_partial. Qed.
+
+(** The correspondence check carries all of this to the item rustc really generated: whenever the observed
+    expansion of a shape equals the model's prediction for a well-formed macro set (that is what the batch
+    lemma [forallb model_check cases = true] establishes for every generated shape), the OBSERVED item is
+    positionally consistent, every expanded recursive call found in the body is the one call both syntaxes
+    reduce to, and the observed closure equals the hand-written recursive function in the model's semantics. *)
+Theorem c20_observed_item_correct :
+  forall (ms : macros) (s : shape) (trailing compiled : bool) (e' : expansion)
+         (calls : list (list (N + N))) (rm rh : list BinNums.Z),
+  well_formed ms = true -> sh_args s <> [] -> NoDup (all_names s) ->
+  model_check_with ms (Case s trailing (Some (e', calls)) compiled rm rh) = true ->
+  consistent s e'
+  /\ Forall (fun c => c = call_trailing e' (map inl (iota (length (sh_args s)) 0%N))) calls
+  /\ forall (V : Type) (body : selfT V -> list V -> list N -> list N -> store V -> option (V * store V)),
+     body_ext V body ->
+     forall (n : nat) (syn : bool) (args : list V) (st : store V),
+     closure V body s e' n args st = hand V body s n syn args st.
+Proof. exact observed_item_correct. Qed.
